@@ -829,9 +829,30 @@ def _non_ascii(t):
     return False
 
 
+def _atoms(t, acc):
+    if t[0] == "atom": acc.add(t[1])
+    elif t[0] == "cmp":
+        acc.add(t[1])
+        for x in t[2]: _atoms(x, acc)
+    return acc
+
+
+def _foreign_atoms(prog, q, answers):
+    """atoms/functor names in the answers that occur nowhere in the program or the query: the answer was built from cells
+    the program never wrote (what the compact-string corruption produces; which garbage is read varies from run to run)"""
+    known = {"ans", ".", "[]"}
+    for h, b in prog:
+        _atoms(h, known); _atoms(b, known)
+    _atoms(q, known)
+    got = set()
+    for a in answers: _atoms(a, got)
+    return got - known
+
+
 def failure_key(prog, q, obs=None):
     ts = [q] + [b for _, b in prog]
-    if obs is not None and obs[0] == "ok" and uses_char_lists(prog, q) and any(_non_ascii(a) for a in obs[1]):
+    if obs is not None and obs[0] == "ok" and uses_char_lists(prog, q) and \
+            (any(_non_ascii(a) for a in obs[1]) or _foreign_atoms(prog, q, obs[1])):
         return "one-char-atom-list-compact-string-corruption"
     if obs is not None and obs[0] == "ok" and obs[2] is not None and any(has_is_barevar(t) for t in ts) and \
             obs[2][0] == "cmp" and obs[2][1] == "error" and obs[2][2][0][0] == "cmp" and obs[2][2][0][1] == "type_error" and \
